@@ -5,6 +5,7 @@ import re
 from ..core import AnalysisError, norm, short, walk_local, stale_loop_uses
 from ..cfg import cfg_of, forward
 from . import register
+from ..inline import inlined_view
 
 EN = "spydrnet/composers/edif/edifify_names.py"
 NS_EDIF = "spydrnet/plugins/namespace_manager/edif_namespace.py"
@@ -237,6 +238,7 @@ def check_c17(ctx, R):
         R.bad("I2", "%s|off-by-one" % lf.key, lf.loc(),
               "_length_fix truncates to name_length_target (%d) characters but _length_good requires fewer than that: the repaired identifier is still too long (%d > %d accepted by the reader without &)" % (tgt, tgt, rmax_plain))
     cf = en.methods.get("_conflicts_fix")
+    cf = inlined_view(P, cf, keep=("_length_fix", "_length_good", "_characters_fix", "_characters_good", "_conflicts_good", "_conflicts_fix")) if cf is not None else None
     if cf is None:
         raise AnalysisError("anchor vanished: _conflicts_fix")
     cfg = cfg_of(cf.node)
@@ -335,6 +337,7 @@ def _i4(ctx, R):
     comp = P.cls("spydrnet/composers/edif/composer.py", "ComposeEdif")
     en = P.cls(EN, "EdififyNames")
     ed = comp.methods.get("_edifify_netlist")
+    ed = inlined_view(P, ed, keep=("_add_rename_property", "_topological_sort")) if ed is not None else None
     if ed is None:
         raise AnalysisError("anchor vanished: ComposeEdif._edifify_netlist")
     n = 0
